@@ -117,6 +117,22 @@ func init() {
 			"appends may write into spare capacity of an existing backing array (`modifies spare-capacity`): assumed unobservable; panic-freedom of the same closures is C04's claim",
 		},
 	}
+	propSpecs["C07"] = &PropSpec{
+		ID:       "C07",
+		Patterns: []string{"./internal/ast", "./internal/ast/compiler", "./internal/orderedmap", "./internal/tools", "./internal/codegen"},
+		Level:    "proof",
+		Prepare:  func(e *Engine) { e.assumeKindInv = true },
+		Opts: func(e *Engine, key string) VerifyOpts {
+			return VerifyOpts{OnlyKinds: []string{"pre", "post", "frame", "inv-init", "inv-pres", "cover"}}
+		},
+		Extra: func(e *Engine, tier string) []*FuncResult { return []*FuncResult{e.flowResult()} },
+		Assumptions: []string{
+			"scope (1): Schema.Merge under contract - the receiving schema never loses or overwrites a definition; on success its objects are exactly the union, added objects are the other schema's, and objects present in both agree (Object.Equal); same package and metadata",
+			"scope (2): three structural def-use obligations over go/ssa (discharged by the generator, not by SMT): Passes.Process hands its passes only the deep copy of its argument; ContextForLanguage hands the shared schemas only to Passes.Process; Run hands the loaded schemas only to ContextForLanguage. With C18 (the copy shares no mutable memory with the original) and the write frames of C15 this is the argument that a transformation chain never modifies the schemas it was handed and that one language's chain cannot influence another's",
+			"NOT covered: Schemas.Consolidate's grouping loop (first-seen order fixed under C03), identity of generated files across language subsets and input permutations (jennies/templates: generated-program behaviour outside this technique's reach), veneers shared between languages",
+			"Object.Equal is used as an uninterpreted pure function (go-cmp based)",
+		},
+	}
 	propSpecs["C03"] = &PropSpec{
 		ID:       "C03",
 		Patterns: []string{"./..."},
